@@ -7,7 +7,9 @@ user's own) plus 1-3 operations, each with at most one injected fault:
 
     griffe.load_git(pkg, ref=R, repo=..., search_paths=[srcdir], force_inspection=F, resolve_aliases=A, extensions=E)
     griffe.check(pkg, against=R | None, base_ref=B | None, search_paths=[srcdir], force_inspection=F, extensions=[E])   (cwd = repository)
-    (a third of the operations is called from a worker thread, result / exception handed back to the main thread)
+    (a third of the operations is called from a worker thread, result / exception handed back to the main thread; a third runs
+    with the working tree's source root on sys.path, so that the user's *current* package is importable by the process —
+    combined with refs at which the package is absent)
 
     faults: unknown reference; package absent at R; syntax error at R; a user branch that already has the name of Griffe's
     temporary branch; a user worktree whose directory is named like Griffe's temporary checkout (normalize(ref)) or branch; the
@@ -72,8 +74,8 @@ ASSUMPTIONS = [
     "failures of Griffe's own clean-up commands (worktree remove / prune / branch -D) and asynchronous signals are not injected — no "
     "implementation could restore the repository if its clean-up commands themselves are made to fail",
     "an injected sub-process failure means the command is not executed",
-    "force_inspection imports the checked-out code as a user's interpreter would (sys.dont_write_bytecode=False during the call; the runner "
-    "itself sets PYTHONDONTWRITEBYTECODE=1); `check` with force_inspection is only generated together with base_ref, because importing the "
+    "every operation runs with byte-code writing enabled as in a user's interpreter (sys.dont_write_bytecode=False during the call; the runner "
+    "itself sets PYTHONDONTWRITEBYTECODE=1), so anything Griffe imports leaves __pycache__ behind — in the temporary checkout or, wrongly, in the user's tree; `check` with force_inspection is only generated together with base_ref, because importing the "
     "*current* working tree writes __pycache__ there by CPython's own doing",
     "generated package sources are free of side effects; package names are unique per history and purged from sys.modules after each operation",
     "check() is called in-process with the repository as working directory (the documented CLI usage: `griffe check pkg -s src -a REF`)",
@@ -287,8 +289,11 @@ def _execute(op, plan, info, case, tmpdir: Path, ext_k, sub_plan) -> dict:
         os.environ.update(G.GIT_ENV)
         os.chdir(repo)
         tempfile.tempdir = str(tmpdir)
-        if plan["force"]:
-            sys.dont_write_bytecode = False
+        # byte-code writing as in a user's interpreter (the runner itself sets PYTHONDONTWRITEBYTECODE=1): whatever Griffe imports
+        # — the checkout under force_inspection, or anything its fall-back to dynamic import reaches — leaves its traces
+        sys.dont_write_bytecode = False
+        if op.get("root_on_syspath"):
+            sys.path.insert(0, str(info["src"]))  # restored below with the saved copy
         ggit.subprocess = proxy
         sys.stdout = sys.stderr = captured
         def call():
@@ -587,6 +592,8 @@ def _judge(op, plan, info, before, run, tmpdir: Path, tag: str, case=None, wd: P
 def check_case(case) -> list[Fail]:
     import _griffe.git as ggit
 
+    case = G.normalise(case)
+
     fails: list[Fail] = []
     records = []
     wd = _workdir()
@@ -657,6 +664,10 @@ def check_case(case) -> list[Fail]:
                 if op.get("preexisting"):
                     classes.append("preexisting-griffe-branch")
                 classes.append("called-from:" + ("worker-thread" if op.get("thread") else "main-thread"))
+                if op.get("root_on_syspath"):
+                    in_wt = (info["src"] / info["name"] / "__init__.py").exists()
+                    absent_at_ref = plan["ref_commit"] is not None and case["commits"][plan["ref_commit"]]["state"] == "absent"
+                    classes.append("source-root-on-sys.path" + (":package-absent-at-ref-but-in-working-tree" if in_wt and absent_at_ref else ""))
                 if op.get("user_wt"):
                     classes.append(f"user-worktree-dir-named-like:{op['user_wt']}")
                 if plan["ref_commit"] is not None:
